@@ -75,6 +75,51 @@ def good_frame(rng, ids: IdSource | None = None, dense: bool | None = None, max_
     return octets, desc
 
 
+def sibling(rng, desc: dict, ids: IdSource | None = None):
+    """A well-formed frame that looks like the one described by desc at its start - same format / length field, same first address
+    octets - but is laid out differently: one address is longer or shorter (the information field absorbs the difference), so
+    control, HCS and information sit at other offsets.  Returns (octets, description) or None when no such frame exists."""
+    dst, src, info = desc["dst"], desc["src"], desc["info"] or b""
+    which = rng.choice(("src", "src", "dst"))
+    old = src if which == "src" else dst
+    options = [n for n in (1, 2, 3, 4) if n != len(old) and (n == 1) == (len(old) == 1)] if len(old) > 1 else []
+    if not options:
+        # a one-octet address has its extension bit set: the sibling keeps the other address and varies this one's *value* only
+        return None
+    n_new = rng.choice(options)
+    new_info_len = len(info) - (n_new - len(old))
+    if not info or new_info_len < 1:
+        return None
+    # same leading octet (even: 'more octets follow'), fresh remaining octets, last one odd
+    tail = bytearray(hdlc_ref.address(rng, n_new)[1:]) if n_new > 1 else bytearray()
+    new_addr = bytes(old[:1]) + bytes(tail)
+    new_info = info_bytes(rng, new_info_len, rng.random() < 0.5)
+    if ids is not None and new_info_len >= 6:
+        new_info = ids.next() + new_info[6:]
+    d2 = dict(desc, info=new_info, ctrl=rng.choice((desc["ctrl"], rng.randrange(256))))
+    d2["src" if which == "src" else "dst"] = new_addr
+    try:
+        octets = hdlc_ref.build(d2["type"], d2["seg"], d2["dst"], d2["src"], d2["ctrl"], new_info)
+    except ValueError:
+        return None
+    return octets, d2
+
+
+def digest_twin(rng, desc: dict):
+    """Another well-formed frame with the same header, the same length and the same CRC-32 over all its octets (check sequences
+    recomputed) - only information octets differ.  (octets, description) or None."""
+    from vf.gen import collide
+
+    info = desc["info"] or b""
+    if len(info) < 5:
+        return None
+    build = lambda i: hdlc_ref.build(desc["type"], desc["seg"], desc["dst"], desc["src"], desc["ctrl"], i)
+    other = collide.linear_twin(info, rng, build)
+    if other is None:
+        return None
+    return build(other), dict(desc, info=other)
+
+
 def header_octets(octets: bytes) -> bytes:
     """format, addresses, control and HCS of a well-formed frame."""
     f = hdlc_ref.parse(octets)
@@ -155,7 +200,16 @@ def corrupt(rng, octets: bytes) -> tuple[bytes, str]:
 
 
 def noise(rng, n: int, flavour: str | None = None) -> tuple[bytes, str]:
-    flavour = flavour or rng.choice(("random", "dense", "lookalike", "abort", "flagfree", "esc_end"))
+    flavour = flavour or rng.choice(("random", "dense", "lookalike", "abort", "flagfree", "esc_end", "idle_line"))
+    if flavour == "idle_line":
+        # well-formed frames with idle / break characters between them (mark idle 0xFF, NUL, flow control) instead of - or next to - flags
+        out = b""
+        for _ in range(rng.randint(1, 4)):
+            fr, _d = good_frame(rng, None, max_info=30)
+            k = rng.choice((1, 2, 8, 40))
+            g = rng.choice((b"\xff" * k, b"\x00" * k, b"\x11\x13" * k, b"", bytes(rng.choice(b"\x00\xff\x7e\x11") for _ in range(k))))
+            out += g + b"\x7e" + on_wire(fr, rng.random() < 0.5) + rng.choice((b"\x7e", b"", b"\x7e\x7e"))
+        return out + rng.choice((b"", b"\x00" * 5, b"\xff" * 5)), flavour
     if flavour == "random":
         out = rng.randbytes(n)
     elif flavour == "dense":
